@@ -20,11 +20,11 @@ structure St where
   env : DEnv
   db : DDb
 
-def mkEnv (logs : List (LogId × Option Bytes)) : DEnv where
+def mkEnv (logs : List (LogId × Option Bytes)) (canSign : Bool := true) : DEnv where
   logList := logs.map (·.1)
   idOf := fun id => (logs.lookup id).join
   verify := fun _ _ _ _ s => s.2
-  cosign := fun _ => ()
+  cosign := fun _ => if canSign then some () else none
   nodeH := rfcNodeH
 
 def St.init : St := ⟨mkEnv [], Db.empty⟩
@@ -140,6 +140,12 @@ def handle (st : St) (line : String) : St × String :=
     match parseNat? n with
     | some n => match parseLogs n rest with
       | some logs => (⟨mkEnv logs, Db.empty⟩, "ok")
+      | none => (st, "bad-op")
+    | none => (st, "bad-op")
+  | "newx" :: n :: rest =>   -- a witness whose key `signSTH` cannot use
+    match parseNat? n with
+    | some n => match parseLogs n rest with
+      | some logs => (⟨mkEnv logs false, Db.empty⟩, "ok")
       | none => (st, "bad-op")
     | none => (st, "bad-op")
   | "upd" :: rest =>
